@@ -31,3 +31,25 @@ contract("_RealFinder._find_last_non_space_char", source=M + "_RealFinder._find_
                             "forall(lambda k: implies(offset < k and k <= old(offset) and 0 <= k, self.code[k].isspace() and self.code[k] != '\\n'))"],
                     "decreases": "offset + 1"}},
          note="nearest position at or before offset that is not blank (a newline stops the scan); -1 when there is none")
+
+# ---- CPython cross-check of the three scanner contracts on the real _RealFinder ---------------------------------------------------------
+def _xc_w_domain(tier, seed):
+    import itertools
+    alphabet = "a_ \n." if tier != "thorough" else "a_ \n.1\t"
+    for n in range(1, 6 if tier != "thorough" else 6):
+        for t in itertools.product(alphabet, repeat=n):
+            s = "".join(t)
+            for off in range(-1, n):
+                yield (s, off)
+
+
+def _xc_w_build(case):
+    from rope.base import worder
+    s, off = case
+    return {"self": worder._RealFinder(s, s), "offset": off}
+
+
+for _fn in ("_find_word_start", "_find_word_end", "_find_last_non_space_char"):
+    bounded_check(name="c14-%s-native" % _fn.strip("_").replace("_", "-"), props=["C14"], contract="_RealFinder." + _fn, build=_xc_w_build, domain=_xc_w_domain,
+                  exhaustive=True, label="CPython cross-check: %s's contract on every text of <= 5 characters over {a,_,space,newline,.} x every offset "
+                                         "(cases outside the precondition are skipped)" % _fn)
